@@ -154,6 +154,17 @@ CHECKS['C07'] = (
  'booleans, list/tuple shape); non-termination of simplify is decided structurally (same AST at the top of two rounds).',
  'Judged only where the original returns; a transformation that raises or does not terminate counts as a violation; failing cases are '
  'attributed to the single rewrite that reproduces them using three private fpy2 classes (coarse label if unavailable).', '§5 C07')
+CHECKS['C11'] = (
+ 'bounded exhaustive enumeration of accepted programs from 21 families x all 12 compiler option sets x argument vectors; every '
+ 'emitted function compiled with g++ and run, output bit patterns compared with the interpreter',
+ 'Every program of 21 families (contexts and rounding modes, branches and early returns, loops, tuples/zip/sum/enumerate, aliased '
+ 'and nested lists, two-function modules with callee writes, integer contexts and REAL arithmetic) is compiled under all 12 '
+ 'combinations of optimize x unbox x arrays, all emissions of a shard go into one translation unit with a generated main printing '
+ 'results and the caller-visible list arguments as raw bit patterns, and every (program, option set, argument vector) is compared '
+ 'with Function.__call__ under the same context.',
+ 'Trusted base: g++ -O0 -std=c++17 -frounding-math -ffp-contract=off and the host IEEE arithmetic; integer programs keep values small '
+ '(signed overflow is undefined in C++); rejections (CppCompileError) counted, not judged; quick uses a fixed core plus a seed-rotated '
+ 'slice of the full product.', '§5 C11')
 PENDING = {}
 
 def main():
